@@ -19,6 +19,7 @@ import (
 	"fmt"
 	"os"
 	"path/filepath"
+	"syscall"
 )
 
 // SideCar is a metadata storer that uses sidecar files to store metadata.
@@ -132,6 +133,11 @@ func (s SideCar) DeleteAttributes(bucket, object string) error {
 	}
 
 	err := os.RemoveAll(metadir)
+	if errors.Is(err, syscall.ENOTEMPTY) {
+		// a concurrent writer of the same key is storing its
+		// attributes: they are not ours to remove
+		return nil
+	}
 	if err != nil && !errors.Is(err, os.ErrNotExist) {
 		return fmt.Errorf("failed to remove attributes: %v", err)
 	}
